@@ -636,3 +636,96 @@ func deferredWhenErr(sp *flow.Spec, fn *core.FuncInfo, ds *ast.DeferStmt, errRes
 	}
 	return sp.AnalyzeSeed(h, nil)
 }
+
+// recoverSurfaces: a function with an error result that recovers from a panic in a deferred closure returns, after
+// the recovery, whatever its *named* results hold — the zero values if they are unnamed, i.e. (.., nil): success.
+// Every such function among fns must therefore name its error result and assign it (a non-nil value, or re-panic)
+// on every path of the closure where recover() answered non-nil.
+func recoverSurfaces(r *core.Run, rule string, fns []*core.FuncInfo) int {
+	w := r.W
+	n := 0
+	for _, f := range dedupFns(fns) {
+		if f == nil || f.Decl.Body == nil || w.IsTestFile(f.Decl.Pos()) {
+			continue
+		}
+		info := f.Pkg.TypesInfo
+		sig := f.Obj.Type().(*types.Signature)
+		if _, has := core.HasErrorResult(sig); !has {
+			continue
+		}
+		errRes := namedErrResult(f.Pkg, f.Decl.Type)
+		ast.Inspect(f.Decl.Body, func(x ast.Node) bool {
+			ds, ok := x.(*ast.DeferStmt)
+			if !ok {
+				return true
+			}
+			lit, ok := ast.Unparen(ds.Call.Fun).(*ast.FuncLit)
+			if !ok {
+				return true
+			}
+			// recover() bound to a variable (or tested directly)
+			var rec types.Object
+			hasRecover := false
+			ast.Inspect(lit.Body, func(y ast.Node) bool {
+				switch z := y.(type) {
+				case *ast.AssignStmt:
+					if len(z.Rhs) == 1 {
+						if c, ok := ast.Unparen(z.Rhs[0]).(*ast.CallExpr); ok {
+							if id, ok := c.Fun.(*ast.Ident); ok && id.Name == "recover" && info.Uses[id] == types.Universe.Lookup("recover") {
+								hasRecover = true
+								rec = core.ObjOf(info, z.Lhs[0])
+							}
+						}
+					}
+				case *ast.CallExpr:
+					if id, ok := z.Fun.(*ast.Ident); ok && id.Name == "recover" && info.Uses[id] == types.Universe.Lookup("recover") {
+						hasRecover = true
+					}
+				}
+				return true
+			})
+			if !hasRecover {
+				return true
+			}
+			n++
+			r.Sites++
+			r.Fn(f)
+			key := core.ShortKey(f.Obj) + " : a recovered panic reaches the returned error"
+			if errRes == nil {
+				r.Bad(rule, key, w.Pos(lit.Pos()), "the function recovers from a panic but its error result is unnamed: after the recovery it returns the zero values — a nil error — whatever the deferred closure assigned to its locals, so the caller takes a method that panicked part-way for one that succeeded")
+				return true
+			}
+			if rec == nil {
+				r.Undecided(rule, key, w.Pos(lit.Pos()), "recover() is not bound to a variable the closure tests")
+				return true
+			}
+			sp := &flow.Spec{W: w, Depth: 0, AssignTags: func(pkg *packages.Package, as *ast.AssignStmt) []flow.Tag {
+				for i, l := range as.Lhs {
+					if core.ObjOf(pkg.TypesInfo, l) == errRes {
+						if i < len(as.Rhs) && isNilIdent(pkg.TypesInfo, as.Rhs[i]) {
+							return []flow.Tag{"-seterr"}
+						}
+						return []flow.Tag{"seterr"}
+					}
+				}
+				return nil
+			}, Classify: func(pkg *packages.Package, call *ast.CallExpr, callee *types.Func) []flow.Tag {
+				if id, ok := call.Fun.(*ast.Ident); ok && id.Name == "panic" {
+					return []flow.Tag{"repanic"}
+				}
+				return nil
+			}}
+			res := sp.AnalyzeLitSeed(f.Pkg, lit, func(s *flow.State) { s.SetNil(rec, false) })
+			okAll := true
+			for _, ex := range res.Exits {
+				if !ex.St.Has("seterr") && !ex.St.Has("repanic") {
+					okAll = false
+				}
+			}
+			r.Check(okAll, rule, key, w.Pos(lit.Pos()), "whenever recover() is non-nil the closure assigns the named error result (or re-panics)",
+				"with a recovered panic the closure can finish without assigning the function's error result: the caller sees a nil error for a method that panicked part-way")
+			return true
+		})
+	}
+	return n
+}
